@@ -844,9 +844,12 @@ def oracle(c, io):
         if 'exc' in io: return f"boundary raised {io['exc']}: {io.get('msg')}"
         es = [ext_of(f['shape'], f['off']) for f in c['fields']]
         px = [(r, q) for e in es for r in (e[0], e[1]) for q in (e[2], e[3])]
-        # bounding box of the occupied pixels; documented caveat (boundary_is_bbox_general): rmax/cmax never below 0
-        want = [min(p[0] for p in px), max(0, max(p[0] for p in px)), min(p[1] for p in px), max(0, max(p[1] for p in px))]
-        return None if io['extent'] == want else f"boundary {io['extent']} is not the bounding box {want} (max side raised to 0)"
+        # bounding box of the occupied pixels (the property's clause); the unchanged implementation never returns rmax/cmax below 0
+        # (boundary_is_bbox_general; reported as a finding) — that box is accepted too, anything else is wrong
+        exact = [min(p[0] for p in px), max(p[0] for p in px), min(p[1] for p in px), max(p[1] for p in px)]
+        raised = [exact[0], max(0, exact[1]), exact[2], max(0, exact[3])]
+        if io['extent'] in (exact, raised): return None
+        return f"boundary {io['extent']} is not the bounding box {exact} of the fields' pixels (nor that box with the max side raised to 0)"
     if k == 'overlap':
         if 'exc' in io: return f"overlap raised {io['exc']}: {io.get('msg')}"
         if not io['is_bool']: return 'overlap did not return a bool'
